@@ -87,8 +87,9 @@ func (s *Search) Run() error {
 	type node struct {
 		hist  []string
 		canon string
+		prev  string // canonical state of the predecessor (for re-evaluating the invariant on a divergent replay)
 	}
-	frontier := []node{{nil, c0}}
+	frontier := []node{{nil, c0, ""}}
 	depth := 0
 	s.DepthCount = []int64{1}
 	for len(frontier) > 0 {
@@ -115,7 +116,24 @@ func (s *Search) Run() error {
 				return err
 			}
 			if got := sys.Canon(); got != n.canon {
+				// The same history reached two different states: un-owned nondeterminism. If the divergent state
+				// violates the invariant, that is a finding about the code (e.g. a result that depends on map
+				// iteration order): record it and stop this search; otherwise it is a harness error.
+				ev := ""
+				if len(n.hist) > 0 {
+					ev = n.hist[len(n.hist)-1]
+				}
+				fs := sys.Invariant(n.prev, ev)
 				sys.Close()
+				if len(fs) > 0 || len(s.Violations) > 0 {
+					// (violations recorded earlier in this search may be the very cause of the divergence)
+					for _, f := range fs {
+						f.Detail = "(state reached on a second replay of the same history; the first replay reached " + n.canon + ") " + f.Detail
+						s.Violations = append(s.Violations, Violation{Finding: f, History: n.hist})
+					}
+					s.Capped = "nondeterministic replay with an invariant violation: search stopped"
+					return nil
+				}
 				return fmt.Errorf("nondeterministic replay of %v: canonical state differs:\n%s\nvs\n%s", n.hist, n.canon, got)
 			}
 			evs := sys.Enabled()
@@ -141,7 +159,7 @@ func (s *Search) Run() error {
 				if _, ok := seen[c]; !ok {
 					seen[c] = struct{}{}
 					s.States++
-					next = append(next, node{hist, c})
+					next = append(next, node{hist, c, n.canon})
 					if s.MaxStates > 0 && int(s.States) >= s.MaxStates {
 						s.Capped = fmt.Sprintf("state cap %d reached at depth %d", s.MaxStates, depth+1)
 						return nil
